@@ -1,6 +1,7 @@
 package main
 
 import (
+	"sort"
 	"fmt"
 	"go/token"
 	"go/types"
@@ -446,6 +447,53 @@ func runC07(c *Ctx) {
 	}
 	// R10: oversized and empty frames are refused before the body is read, with and without the allocator (shared with C08.O3)
 	c.withRule("R10", func() { checkFrameLimits(c, newZWorld(p)) })
+	checkDecodeErrorsNotOverwritten(c, "R12")
+	// R13 (shared with C02.R0): a well-formed request of every type makePacket can build lands in a case of the os
+	// server's dispatcher that answers it; the default arm returns an error, which ends the command worker without a
+	// reply — with more requests in the stream Serve then waits for a worker that is gone
+	if handle := p.Func("handlePacket"); handle == nil {
+		c.missing("R13", "handlePacket")
+	} else if hv := requestSwitchValue(handle); hv == nil {
+		c.und("R13", "type switch of handlePacket", p.Pos(handle.Pos()), "cannot find the type switch on the request packet")
+	} else {
+		top, _ := requestTypes(c, "R13")
+		hHead := switchHead(handle, hv)
+		for _, t := range top {
+			body, def, _ := simulate(hHead, t)
+			c.check(!def, "R13", "handlePacket dispatch of "+typeName(t), p.Pos(body.Instrs[0].Pos()),
+				"lands in a case that builds a response", "falls into the default arm of handlePacket: the request is never answered and the worker exits")
+		}
+		c.floor("R13", 20)
+	}
+	// R11 (prover, shared with C08.O1/O5): what every received frame goes through before it is a packet of a known type
+	// — recvPacket, makePacket and the constructors makePacket picks from — cannot panic on any type byte or length:
+	// a panic there takes the whole server down, not one request
+	{
+		w := newZWorld(p)
+		ord := map[string]int{}
+		lifted := map[*ssa.Function][]zreq{}
+		fns := []*ssa.Function{}
+		for _, name := range []string{"recvPacket", "makePacket"} {
+			if fn := p.Func(name); fn != nil {
+				fns = append(fns, fn)
+				fns = append(fns, allAnon(fn)...)
+			} else {
+				c.missing("R11", name)
+			}
+		}
+		n := 0
+		for _, fn := range fns {
+			z := w.get(fn)
+			for _, o := range z.obligationsOf() {
+				switch o.Kind {
+				case "slice", "index", "panic", "assert", "div", "make":
+					n++
+					decideObl(c, w, z, o, "R11", oblKey(o, fn, ord), lifted)
+				}
+			}
+		}
+		c.check(n >= 3, "R11", "receive-path obligations", "?", fmt.Sprintf("%d obligations", n), fmt.Sprintf("only %d obligations found in recvPacket/makePacket", n))
+	}
 }
 
 // checkJoinUnderLock: a function that waits for goroutines (WaitGroup.Wait) must not hold a mutex that the
@@ -831,4 +879,97 @@ func checkHandleCommandsOrdered(c *Ctx, rule string) {
 		c.check(!overtakes, rule, strings.TrimSuffix(strings.TrimPrefix(tn, "sshFxp"), "Packet")+" is ordered after earlier reads and writes", p.Pos(start.Instrs[0].Pos()),
 			"working.Wait() before the hand-off", "the request is handed to the command worker while earlier READs/WRITEs of the same handle may still be running on the parallel workers: it is applied before them (pipelined WRITE | FSTAT | FSETSTAT size=5 | CLOSE: FSTAT reports the old size, the file ends with the WRITE's length)")
 	}
+}
+
+// checkDecodeErrorsNotOverwritten (C07.R12): package sftp's request decoders read their fields with the unmarshal…Safe
+// helpers, each of which reports a short packet through its error result.  A malformed packet must not be taken for a
+// well-formed one: between one such call and the next (or the return) its error is looked at — tested against nil, or
+// returned.  A decoder that carries the error in a variable and lets the next field's result replace it accepts a
+// packet whose earlier field ran past the end whenever the later field happens to decode.
+func checkDecodeErrorsNotOverwritten(c *Ctx, rule string) {
+	p := c.P
+	isSafe := func(cc *ssa.CallCommon) bool {
+		f := cc.StaticCallee()
+		if f == nil || f.Pkg != p.Sftp {
+			return false
+		}
+		n := f.Name()
+		if !strings.HasPrefix(n, "unmarshal") || !strings.HasSuffix(n, "Safe") {
+			return false
+		}
+		res := f.Signature.Results()
+		return res.Len() > 0 && isErrorType(res.At(res.Len()-1).Type())
+	}
+	n := 0
+	ord := map[string]int{}
+	// the decoders of requests: the UnmarshalBinary methods of the request types and what they call (the client's
+	// decoding of replies is C20's; a STATUS reply's optional message and language are read leniently on purpose)
+	var roots []*ssa.Function
+	for _, fn := range p.LibFuncs() {
+		if fn.Name() == "UnmarshalBinary" && fn.Signature.Recv() != nil && p.isRequestType(fn.Signature.Recv().Type()) {
+			roots = append(roots, fn)
+		}
+	}
+	cone := p.cone(roots...)
+	var fns []*ssa.Function
+	for fn := range cone {
+		fns = append(fns, fn)
+	}
+	sort.Slice(fns, func(i, j int) bool { return fns[i].String() < fns[j].String() })
+	for _, fn := range fns {
+		if fn.Pkg != p.Sftp && outermost(fn).Pkg != p.Sftp {
+			continue
+		}
+		if strings.HasSuffix(fn.Name(), "Safe") && strings.HasPrefix(fn.Name(), "unmarshal") {
+			continue // the helpers themselves are built from one another
+		}
+		calls := callsWhere(fn, isSafe)
+		for _, k := range calls {
+			k := k
+			n++
+			key0 := fnName(fn) + ": error of " + calleeName(callOf(k))
+			ord[key0]++
+			key := fmt.Sprintf("%s #%d is looked at before the next field", key0, ord[key0])
+			mentions := func(v ssa.Value) bool {
+				for _, l := range leavesOf(v) {
+					if l.Kind == leafCallResult && l.CallIn == k {
+						return true
+					}
+				}
+				return false
+			}
+			looked := func(in ssa.Instruction) bool {
+				switch x := in.(type) {
+				case *ssa.If:
+					if bo, ok := x.Cond.(*ssa.BinOp); ok && (bo.Op == token.EQL || bo.Op == token.NEQ) {
+						if isNilConst(bo.Y) && isErrorType(bo.X.Type()) && mentions(bo.X) {
+							return true
+						}
+						if isNilConst(bo.X) && isErrorType(bo.Y.Type()) && mentions(bo.Y) {
+							return true
+						}
+					}
+				case *ssa.Return:
+					for _, r := range x.Results {
+						if isErrorType(r.Type()) && mentions(r) {
+							return true
+						}
+					}
+				}
+				return false
+			}
+			next := func(in ssa.Instruction) bool {
+				if in == k {
+					return false
+				}
+				if cc := callOf(in); cc != nil && isSafe(cc) {
+					return true
+				}
+				return isReturn(in)
+			}
+			c.check(!reachAvoiding(fn, k, next, looked), rule, key, p.Pos(k.Pos()), "tested or returned first",
+				"the next field is decoded (or the decoder returns) without this call's error having been looked at: if a later field decodes, a packet whose earlier field ran past the end is accepted as well-formed")
+		}
+	}
+	c.check(n >= 25, rule, "safe decode calls", "?", fmt.Sprintf("%d calls", n), fmt.Sprintf("only %d unmarshal…Safe calls found in package sftp", n))
 }
